@@ -6,19 +6,22 @@ PROP = {
     "level": "translation_validation",
     "needs_cli": True,
     "trusted_base": TB_COMMON + [
-        "CapyV.Core (Spec/CapyCore.lean) IS the semantics: a fuel-bounded big-step interpreter written from the README and the property statements; left-to-right evaluation; by-value aggregates; faults abort; its own meta-theorems are in Props/C01.lean",
+        "CapyV.CoreMem (Spec/CapyCoreMem.lean) IS the semantics: a fuel-bounded big-step interpreter written from the README and the property statements; left-to-right evaluation (the destination cell of an assignment is determined before its value is computed); by-value aggregates; an addressable store of frames (fresh id per activation) and cells (frame, variable, access path) for pointers and slices; a dereference into a dead frame is `stuck`, never given a meaning; faults abort; its own meta-theorems are in Props/C01.lean",
+        "CapyV.Core (Spec/CapyCore.lean), the value-only interpreter that C16's substitution lemma is about, is kept unchanged; the driver (`CORE xcheck`) runs every generated program of the common fragment through both interpreters and the harness reports the comparison (`v1-interpreter:agree|differ|n/a`); there is no Lean proof that CoreMem is a conservative extension of Core",
         "no Lean model of Cranelift code generation as a whole: the mechanisms that are modelled and proved are C03, C08, C10, C17, C22-C24; C01 itself is decided per generated program",
         "the generator (harness/src/core.rs) produces programs inside the fragment; a program on which the interpreter reports `stuck`/`out-of-fuel` is not compared (counted as not-compared)",
         "real capy CLI, gcc/ld, core.println and its integer formatting (core/src/fmt.capy)",
     ],
     "assumptions": [
-        "fragment: integers of width 8-64, bool, arrays, structs, optionals, functions, while, labelled blocks, break/continue/return, defers, casts, #unwrap/#is_variant; not yet: slices, pointers, enums/switch, error unions and .try, lambdas, varargs, i128, char, floats",
+        "fragment: integers of width 8-64, bool, arrays, structs, optionals, enums with payloads, error unions, switch (with argument and default arm), .try, functions (by-value aggregates), while, labelled blocks, break/continue/return, defers, casts, #unwrap/#is_variant; pointers ^T/^mut T to locals, struct fields and array elements, p^ reads, writes p^ = v / p^.f = v / p^[i] = v, pointer parameters, pointers in structs and optionals; slices []T made from array places (implicit conversion), .len, indexing with the run-time bounds check, writes through a mutable slice binding over a mutable array, slice parameters, [N]T.(slice); function values (a named function stored in a local of type `(p0: T, ..) -> R` and called through it); bounded self-recursion (each activation its own frame, pointers into outer activations); char (literals, ==/!=, casts from/to integers, printed as the character); not yet: pointers to pointers, pointer payloads in enums / arrays of pointers / slices in structs, slices of temporaries, returning pointers, anonymous lambdas / capturing, function-typed parameters, varargs, i128, str, floats, globals, comptime",
+        "pointer programs are generated under a lifetime discipline (a pointer-carrying value stored in a variable of block depth d only mentions variables of depth <= d; functions never return pointer-carrying types; pointer-carrying values are never written through a pointer), so no generated program dereferences a dangling pointer: C01 says nothing about those",
+        "generator avoids three shapes on purpose (FINDINGS of the CapyCore extension round): `^mut (place)` with parentheses (the compiler takes the address of a copy), a call inside the place of a compound assignment (`a[f()] += e` evaluates f twice), `^mut p^.f` without auto-deref (parses as `(^mut p)^.f`)",
         "bounds of the property: nesting <= 6, <= 12 globals, <= 40 statements per function, loops <= 64 iterations, no input",
     ],
 }
 
 # (category, text, design_ref, technique)
 LEVEL = ("translation_validation",
-         "Per generated well-typed program: built by the real CLI, run, and stdout + exit status (including the defined runtime faults) compared with the Lean reference interpreter CapyV.Core.run. The Lean theorems are meta-theorems of the reference semantics (value ranges, modular arithmetic, exit-status rule, store frame lemmas); the compiler's mechanisms are proved under their own properties. Partial by construction: a fragment of the language, a sample of programs.",
+         "Per generated well-typed program: built by the real CLI, run, and stdout + exit status (including the defined runtime faults) compared with the Lean reference interpreter CapyV.CoreMem.run. The Lean theorems are meta-theorems of the reference semantics (value ranges, modular arithmetic, exit-status rule, store frame lemmas for variables, elements and writes through pointers, read-after-write through a pointer, by-value copies, slice bounds check, dead frames are stuck); the compiler's mechanisms are proved under their own properties. Partial by construction: a fragment of the language, a sample of programs.",
          "§4 C01",
          "translation validation against a Lean reference interpreter on type-directed generated programs")
